@@ -1,0 +1,15 @@
+//go:build verif
+
+// Contracts for the deductive checker in /verif (read only with -tags verif).
+
+package smx509
+
+// ---- SEC1 private key: the scalar that comes back is in [1, n-1] (C14), no panic for any DER (C13)
+//@ func parseECPrivateKey property C14,C13
+//@   nullable namedCurveOID
+//@   ensures err == nil ==> key != nil && key.D != nil && 1 <= ghost(bigv, key.D) && ghost(bigv, key.D) < CURVEN(id(key.Curve))
+//@   ensures err != nil ==> key == nil
+//@   loop 1 invariant len(privateKey) >= 0
+//@   loop 1 decreases len(privKey.PrivateKey)
+//@   heapnonnil
+//@   modifies everything
